@@ -689,9 +689,10 @@ class Translator:
         return None
 
     def alloc_elem_type(self, ins):
-        """element type of a heap block, inferred from the (unique) non-i8 pointer
-        type the result of operator new is bitcast to; None => byte block"""
-        found = None
+        """element type of a heap block, inferred from the non-i8 pointer types the result of
+        operator new is bitcast to (a unique struct type wins over pointer-typed views such as
+        the vptr slot); None => byte block"""
+        cands = []
         bb = L.GetInstructionParent(ins)
         fn = L.GetBasicBlockParent(bb)
         for b in L.blocks(fn):
@@ -708,13 +709,26 @@ class Translator:
                 if k == L.TK_Integer and L.GetIntTypeWidth(et) == 8:
                     continue
                 if k == L.TK_Function or (k == L.TK_Struct and L.IsOpaqueStruct(et)) or not L.TypeIsSized(et):
-                    return None
+                    continue
                 if L.ABISizeOfType(self.td, et) == 0:
-                    return None
-                if found is not None and found != et:
-                    return None
-                found = et
-        return found
+                    continue
+                if et not in cands:
+                    cands.append(et)
+        if not cands:
+            return None
+        structs = [c for c in cands if L.GetTypeKind(c) == L.TK_Struct]
+        if len(structs) == 1:
+            return structs[0]
+        if len(structs) > 1:
+            # nested views of the same object (derived / base as first member): take the largest
+            structs.sort(key=lambda c: -L.ABISizeOfType(self.td, c))
+            big = structs[0]
+            if all(self.first_field_path(big, c) is not None for c in structs[1:]):
+                return big
+            return None
+        if len(cands) == 1:
+            return cands[0]
+        return None
 
     def typed_alloc(self, ety, nconst):
         esz = L.ABISizeOfType(self.td, ety)
